@@ -276,6 +276,9 @@ func (p *c12) sortOrder(x *res, adapter string, ctx *runner.Ctx) {
 	}
 	cases := []tc{
 		{"N", "N", []string{"9", "10", "9.5", "100", "-1", "-10", "0", "1E2", "0.5", "2"}},
+		{"N-negative-prefixes", "N", []string{"-1", "-1.5", "-1.25", "-10", "-15", "-2", "-0.1", "-0.15", "-100", "-1E2", "-12345678901234567890123456789012345678", "-1234567890123456789012345678901234567"}},
+		{"N-positive-prefixes", "N", []string{"1", "1.5", "1.25", "10", "15", "2", "0.1", "0.15", "0.015", "1E-2", "12345678901234567890123456789012345678", "1234567890123456789012345678901234567"}},
+		{"N-mixed-exponents", "N", []string{"1E-130", "9.9E125", "-9.9E125", "-1E-130", "0", "5E-1", "0.5E1", "50E-1", "-5E-1", "1E1", "9.99"}},
 		{"N-small", "N", []string{"1", "2", "3"}},
 		{"B", "B", []string{"\x0a", "\x09", "\x0a\x00", "\x01\x02", "\x64", "\x00", "\xff", "\x0b"}},
 	}
@@ -391,6 +394,47 @@ func (p *c12) RunCase(ctx *runner.Ctx) runner.CaseResult {
 				s = "-" + s
 			}
 			return s
+		}
+		// seeded number-typed sort keys: Query order must be the numeric order
+		if ctx.Case%3 == 0 {
+			adapter := adapt.Adapters[(ctx.Case/3)%2]
+			spec := adapt.TableSpec{Name: "tbl12", Hash: "h", Range: "r", RangeT: "N", Billing: "PAY_PER_REQUEST"}
+			if cl, m, ds := freshClient(adapter, spec); ds == nil {
+				seen := map[string]bool{}
+				for i := 0; i < 12; i++ {
+					k := gen()
+					d, err := val.ParseDec(k)
+					if err != nil || !d.InRange() || seen[d.String()] {
+						continue
+					}
+					seen[d.String()] = true
+					op := adapt.Op{Kind: adapt.OpPut, Table: spec.Name, Item: val.Item{"h": val.Str("p"), "r": val.Num(k)}}
+					m.Step(op, cl.Do(op))
+					if r.Intn(2) == 0 { // a neighbour: same digits plus one more
+						k2 := k
+						if !strings.ContainsAny(k, "eE") {
+							if !strings.Contains(k2, ".") {
+								k2 += "."
+							}
+							k2 += fmt.Sprint(1 + r.Intn(9))
+							if d2, err := val.ParseDec(k2); err == nil && d2.InRange() && !seen[d2.String()] {
+								seen[d2.String()] = true
+								op := adapt.Op{Kind: adapt.OpPut, Table: spec.Name, Item: val.Item{"h": val.Str("p"), "r": val.Num(k2)}}
+								m.Step(op, cl.Do(op))
+							}
+						}
+					}
+				}
+				for _, rev := range []bool{false, true} {
+					op := queryOp(spec.Name, "", keyCondEq("h", ":h"), nil, val.Item{":h": val.Str("p")}, rev, rrCanon)
+					got := cl.Do(op)
+					x.r.Evals++
+					x.fp(true, "seeded-order|%s|%d|%v", adapter, ctx.Case, rev)
+					for _, d := range m.Step(op, got) {
+						x.viol(d.Rule, "N-sort-key-seeded", fmt.Sprintf("[%s] seeded N sort keys rev=%v: %s", adapter, rev, d.Detail), map[string]interface{}{"adapter": adapter, "items": got.Items, "rev": rev})
+					}
+				}
+			}
 		}
 		for k := 0; k < 10; k++ {
 			a := gen()
